@@ -32,7 +32,7 @@ def _readctx_of(facts, body):
         return alts, {}, body
     if is_call(r, 'map') and len(r[2]) == 2:
         for clo, m in closure_bindings(r):
-            cb = facts.by_uid.get(clo[1])
+            cb = facts.cb(clo[1])
             if cb is None:
                 continue
             alts = _readctx_alts(interp(facts, cb).ret)
@@ -209,27 +209,30 @@ def ctx_derive(ctx):
     """derive_add_ctx: dot = add_clock.inc(actor), clock = add_clock with that dot applied; derive_rm_ctx: clock = rm_clock; split copies both."""
     facts = ctx.facts
     body = ctx.inherent(READCTX, 'derive_add_ctx')
-    r = drop_lv(interp(facts, body).ret)
+    r = normal(facts, interp(facts, body).ret)
     ok = False
     msg = 'derive_add_ctx returns %s' % fmt(r, 6)
     if r[0] == 'agg' and r[1].endswith('ctx::AddCtx'):
         f = dict(r[3])
         d, c = f.get('dot'), f.get('clock')
         base = ('field', ('param', 1), 'add_clock')
-        if is_call(d, 'inc', self_adt='VClock') and drop_lv(d[2][0]) == base and versionless(d[2][1]) == ('param', 2):
-            if c[0] == 'post' and is_call(c[1], 'apply', self_adt='VClock') and drop_lv(c[1][2][0]) == base and drop_lv(c[1][2][1]) == d:
+        nd = next_dot_of(facts, d)
+        if nd == (base, ('param', 2)):
+            c0 = drop_lv(c)
+            if c0[0] == 'post' and is_call(c0[1], 'apply', self_adt='VClock') and drop_lv(c0[1][2][0]) == base and \
+                    normal(facts, c0[1][2][1]) == normal(facts, d):
                 ok = True
             else:
                 msg = 'the returned clock is %s: it must be add_clock with the new dot applied' % fmt(c, 5)
         else:
-            msg = 'the dot is %s: it must be add_clock.inc(actor)' % fmt(d, 5)
+            msg = 'the dot is %s: it must be the next dot of add_clock for the actor (add_clock.get(actor) + 1)' % fmt(d, 5)
     ctx.check(ok, 'derive_add_ctx', body, 'dot = add_clock.inc(actor); clock = add_clock ⊔ dot', msg)
     body = ctx.inherent(READCTX, 'derive_rm_ctx')
     r = drop_lv(interp(facts, body).ret)
     ok = r[0] == 'agg' and r[1].endswith('ctx::RmCtx') and drop_lv(dict(r[3]).get('clock', ('undef',))) == ('field', ('param', 1), 'rm_clock')
     ctx.check(ok, 'derive_rm_ctx', body, 'clock = rm_clock', 'derive_rm_ctx returns %s, expected RmCtx{clock: self.rm_clock}' % fmt(r, 5))
     body = ctx.inherent(READCTX, 'split')
-    r = drop_lv(interp(facts, body).ret)
+    r = normal(facts, interp(facts, body).ret)
     ok = False
     if r[0] == 'tuple' and len(r[1]) == 2 and r[1][1][0] == 'agg':
         f = dict(r[1][1][3])
